@@ -393,6 +393,7 @@ PROPS["C19"] = dict(
           "the survivor re-read; ASan; ledger (bad free; nothing live after destruction); distinct = hash(existing, texts)"),
     runs=[
         dict(name="asan-hsw", src="schema_harness.cpp", cfg="asan-hsw", env=ASAN_ENV),
+        dict(name="prod-dyn", src="schema_harness.cpp", cfg="prod-dyn", env={}),
         dict(name="asan-wsm", src="schema_harness.cpp", cfg="asan-wsm", env=ASAN_ENV, tiers=("thorough",)),
     ],
     require=["(existing,text)-applications", "texts-with-undeclared-container-valued-keys", "repeated-applications(2..4 texts)", "allocator:pool",
